@@ -248,6 +248,24 @@ class Session:
             else:
                 r.op("weights", st)
             o.update(status=st, valued=(st == "ok"))
+        elif kind == "context":
+            # Broker.context(): one snapshot (NLV, weights, notional values, quantities incl. cash, margins); every field
+            # is compared with the model's marked state, so the fields are also checked against each other
+            st, ctx = self.call(lambda: self.broker.context())
+            if st == "ok":
+                r.op("nlv 1", fr(ctx.nlv), self.tol())
+                dw = {self.sym(c): F(x) for c, x in ctx.weights.items() if self.sym(c) != "USD"}
+                r.op("weights", kv(dw), Fraction(1, 10**8) * max([Fraction(1)] + [abs(x) for x in dw.values()]))
+                dv = {self.sym(c): F(x) for c, x in ctx.values.items() if self.sym(c) != "USD"}
+                r.op("values notional", kv(dv), self.tol())
+                cash = sum(F(x) for c, x in ctx.nr_contracts.items() if self.sym(c) == "USD")
+                pos = {self.sym(c): F(x) for c, x in ctx.nr_contracts.items() if self.sym(c) != "USD"}
+                mar = {self.sym(c): F(x) for c, x in ctx.margins.items() if self.sym(c) != "USD"}
+                r.op("state", f"{fr(cash)} pos={kv(pos)} margin={kv(mar)}", self.tol())
+                o.update(nlv=F(ctx.nlv), weights=dw, valued=True, ctx=dict(cash=cash, pos=pos, margins=mar))
+            else:
+                r.op("nlv 1", st)
+            o["status"] = st
         elif kind == "accrue":
             _, t, flag = op
             st, v = self.call(lambda: self.broker.accrued_interest(from_us(t), bool(flag)))
@@ -433,8 +451,10 @@ def gen_history(rng, tier="quick", exact=None, allow=None, fees=None, nmax=None)
             ops.append(["nlv", 0])
         elif u < 0.83 and "values" in allow:
             ops.append(["values", rng.choice(["liq", "notional"])])
-        elif u < 0.88 and "weights" in allow:
+        elif u < 0.86 and "weights" in allow:
             ops.append(["weights"])
+        elif u < 0.88 and "weights" in allow and "nlv" in allow and "values" in allow:
+            ops.append(["context"])
         elif u < 0.92 and "accrue" in allow:
             ops.append(["accrue", t, rng.choice([0, 1, 1])])
         elif "rebal" in allow:
